@@ -1,7 +1,402 @@
 import Driver.Util
+import Driver.Witness
+import Model.Mirror
+import Model.Sha256
+/-! Driver for engine `mirror` (C15): trace acceptor for `Mirror.step`. The line protocol is documented
+at the top of `harness/internal/mirroreng/` (engine `mirror`).
+
+Every step line of the trace (`req` = an add-checkpoint request, `ae` = header + metadata of an
+add-entries request, `ap` = one package, `ac` = the commit, `start` = a restart) is one event of the
+transition system the theorems of `Props/C15.lean` are about; the model runs it with the injected
+outcomes of the line on the state of the origin the request is addressed to. The store operations the
+model performs (the new suffix of `MState.log`, resp. of `OState.log` for add-checkpoint) and its
+response are remembered under the request id and must then be matched, in order, by the `aef`/`ef`
+and `aresp`/`resp` lines of that request, byte for byte where bytes are concerned (tile contents are
+compared as entry lists / hash lists, computed by the model with real SHA-256). Tickets are opaque
+to the harness: a mirror-info response binds the ticket id it was delivered under to the box the
+model issued at that point; a later request names the id. -/
 namespace Driver.Mirror
-/-- stub: engine not implemented yet -/
+open _root_.Witness _root_.Checkpoint _root_.Mirror
+
+def sha (b : Bytes) : Bytes := Bytes.ofByteArray (Sha256.hash (Bytes.toByteArray b))
+/-- tlog.NodeHash -/
+def node (l r : Hash) : Hash := sha (1 :: (l ++ r))
+/-- the hash of the empty tree -/
+def emptyHash : Hash := sha []
+/-- tlog.RecordHash -/
+def leaf (e : Entry) : Hash := sha (0 :: e)
+
+structure LogDef where
+  origin : Bytes
+  verifiers : List VKey
+  mirrored : Bool
+
+/-- what the model expects next from a request -/
+structure Pending where
+  rid : Nat
+  origin : Bytes
+  /-- add-checkpoint request: the witness' store operations still to be seen -/
+  weffects : List Effect := []
+  effects : List MEffect := []
+  /-- `none`: the request is parked before its next step -/
+  resp : Option Mirror.Resp := none
+  /-- add-checkpoint: the re-encoded text the response lines are made over -/
+  text : Bytes := []
+
+structure St where
+  t : Driver.Tally := {}
+  keys : List (Nat × Bytes × Nat) := []
+  k1 : Option VKey := none
+  k2 : Option VKey := none
+  mirror : Option VKey := none
+  logs : List LogDef := []
+  enforce : Bool := false
+  epoch : Nat := 0
+  states : List (Bytes × MState) := []
+  pending : List Pending := []
+  tickets : List (Nat × Ticket) := []
+  scenario : String := ""
+
+def St.bad (st : St) (n : Nat) (msg : String) : IO St := do
+  IO.println s!"MISMATCH {n} [{st.scenario}] {msg}"
+  return { st with t := { st.t with mismatches := st.t.mismatches + 1 } }
+
+def St.good (st : St) (branch : String) : St :=
+  { st with t := { st.t.bump branch with ok := st.t.ok + 1 } }
+
+def St.vkey (st : St) (id : Nat) : Option VKey :=
+  (st.keys.find? (·.1 == id)).map fun (i, n, h) => { name := n, hash := h, key := i }
+
+def St.ids (st : St) : List Nat := st.keys.map (·.1)
+
+def St.cfg (st : St) : Option Cfg := do
+  let k1 ← st.k1
+  let k2 ← st.k2
+  pure { k1 := k1, k2 := k2, mirror := st.mirror,
+         logs := st.logs.map fun l => ({ origin := l.origin, verifiers := l.verifiers } : LogCfg) }
+
+def St.mcfg (st : St) (o : Bytes) : Option MCfg := do
+  let cfg ← st.cfg
+  let flag := match st.logs.find? (·.origin == o) with | some l => l.mirrored | none => false
+  pure { cfg := cfg, origin := o, mirrorFlag := flag }
+
+/-- the state of an origin; a fresh state has the process key of the current epoch -/
+def St.stateOf (st : St) (o : Bytes) : MState :=
+  match st.states.find? (·.1 == o) with
+  | some (_, s) => s
+  | none => { MState.init emptyHash st.enforce with key := st.epoch }
+
+def St.setState (st : St) (o : Bytes) (s : MState) : St :=
+  { st with states := (o, s) :: st.states.filter (·.1 != o) }
+
+def St.findP (st : St) (rid : Nat) : Option Pending := st.pending.find? (·.rid == rid)
+def St.setP (st : St) (p : Pending) : St :=
+  if st.pending.any (·.rid == p.rid) then { st with pending := st.pending.map fun q => if q.rid == p.rid then p else q }
+  else { st with pending := st.pending ++ [p] }
+def St.dropP (st : St) (rid : Nat) : St := { st with pending := st.pending.filter (·.rid != rid) }
+
+def parseBool (s : String) : Option Bool :=
+  if s == "ok" || s == "1" then some true else if s == "err" || s == "0" then some false else none
+
+def parseFault : String → Option Fault
+  | "ok" => some .ok | "errA" => some .errA | "errN" => some .errN | _ => none
+
+def parseFaults (s : String) : Option (List Fault) :=
+  if s == "-" then some [] else (s.splitOn ",").mapM parseFault
+
+def parseEntry (s : String) : Option Entry := if s == "e" then some [] else Bytes.ofHexChars s.toList
+
+def parseEntries (s : String) : Option (List Entry) :=
+  if s == "-" then some [] else (s.splitOn ",").mapM parseEntry
+
+def parseHashList (s : String) : Option (List Hash) :=
+  if s == "-" then some [] else (s.splitOn ",").mapM fun h => Bytes.ofHexChars h.toList
+
+def parseHdr : String → Option HdrForm
+  | "ok" => some .ok | "ctype" => some .ctype | "gzip" => some .gzip | "noOrigin" => some .noOrigin
+  | "noStart" => some .noStart | "noEnd" => some .noEnd | "endLtStart" => some .endLtStart
+  | "noTicket" => some .noTicket | _ => none
+
+def className : EClass → String
+  | .ctype => "ctype" | .gzip => "gzip" | .noOrigin => "noOrigin" | .noStart => "noStart" | .noEnd => "noEnd"
+  | .endLtStart => "endLtStart" | .noTicket => "noTicket" | .unknownLog => "unknownLog" | .noPending => "noPending"
+  | .notMirrored => "notMirrored" | .internal => "internal" | .missingBody => "missingBody"
+  | .badRequest => "badRequest" | .invalidProof => "invalidProof"
+
+def showEntries (es : List Entry) : String :=
+  if es.isEmpty then "-" else ",".intercalate (es.map fun e => if e.isEmpty then "e" else Bytes.toHex e)
+
+def showHashes (hs : List Hash) : String :=
+  if hs.isEmpty then "-" else ",".intercalate (hs.map Bytes.toHex)
+
+def showEffect : MEffect → String
+  | .pfetch => "pfetch"
+  | .mfetch => "mfetch"
+  | .putData n w a es => s!"put data {n} {w} {if a then 1 else 0} ({es.length} entries)"
+  | .putHash l n w a hs => s!"put hash {l} {n} {w} {if a then 1 else 0} ({hs.length} hashes)"
+  | .mreplace a ck => s!"mreplace {if a then 1 else 0} {ck.1} {Bytes.toHex ck.2}"
+  | .mupload a ck => s!"mupload {if a then 1 else 0} {ck.1} {Bytes.toHex ck.2}"
+
+def showResp : Mirror.Resp → String
+  | .cont => "(parked)"
+  | .err c => s!"{c.status} err {className c}"
+  | .info s p n _ => s!"{s} info {p} {n}"
+  | .ok ck => s!"200 sigs {ck.1} {Bytes.toHex ck.2}"
+  | .w r => s!"add-checkpoint {Driver.Witness.respClass r}"
+  | .ignored => "(event not enabled in the model)"
+
+def respBranch : Mirror.Resp → String
+  | .cont => "cont"
+  | .err c => s!"{c.status}-{className c}"
+  | .info s _ _ _ => s!"{s}-info"
+  | .ok _ => "200"
+  | .w r => s!"w:{Driver.Witness.respClass r}"
+  | .ignored => "ignored"
+
+/-- run one add-entries event on the origin's state and remember what must be observed -/
+def runEv (st : St) (n : Nat) (rid : Nat) (o : Bytes) (ev : Ev) (kind : String) : IO St := do
+  match st.mcfg o with
+  | none => st.bad n "no configuration line before the first request"
+  | some c =>
+    let s := st.stateOf o
+    let (s', resp) := Mirror.step node emptyHash leaf c s ev
+    let effects := s'.log.drop s.log.length
+    match resp with
+    | .ignored => st.bad n s!"request {rid}: step `{kind}` is not enabled in the model's state"
+    | _ =>
+      let st := st.setState o s'
+      let p : Pending := { rid := rid, origin := o, effects := effects,
+                           resp := match resp with | .cont => none | r => some r }
+      return (st.setP p).good s!"{kind}:{respBranch resp}:ops{effects.length}"
+
+def onLine (st : St) (n : Nat) (l : String) : IO St := do
+  let st := { st with t := { st.t with lines := st.t.lines + 1 } }
+  match Driver.words l with
+  | ["scenario", name] =>
+    let unfinished := st.pending.filter fun p => p.resp.isSome || !p.effects.isEmpty || !p.weffects.isEmpty
+    let st ← if unfinished.isEmpty then pure st
+      else st.bad n s!"{unfinished.length} request(s) of the previous scenario: the model still expects operations or a response"
+    let st1 := st.good "scenario"
+    return { t := st1.t, scenario := name }
+  | ["enforce", b] => return { st with enforce := b == "1" }
+  | ["key", id, name, hash] =>
+    match id.toNat?, Bytes.ofHex name, hash.toNat? with
+    | some i, some nm, some h => return { st with keys := st.keys ++ [(i, nm, h)] }
+    | _, _, _ => st.bad n s!"bad-line: {l}"
+  | ["cfg", a, b, m] =>
+    match a.toNat?.bind st.vkey, b.toNat?.bind st.vkey with
+    | some k1, some k2 =>
+      let mir := if m == "-" then none else m.toNat?.bind st.vkey
+      return { st with k1 := some k1, k2 := some k2, mirror := mir }
+    | _, _ => st.bad n s!"bad-line: {l}"
+  | ["log", origin, ids, mir] =>
+    match Bytes.ofHex origin, (if ids == "-" then some [] else (ids.splitOn ",").mapM fun s => s.toNat?.bind st.vkey) with
+    | some o, some ks => return { st with logs := st.logs ++ [{ origin := o, verifiers := ks, mirrored := mir == "1" }] }
+    | _, _ => st.bad n s!"bad-line: {l}"
+  | ["start", ep] =>
+    match ep.toNat? with
+    | none => st.bad n s!"bad-line: {l}"
+    | some 0 => return st.good "start"
+    | some e =>
+      -- a new process: every origin restarts, requests in flight are gone
+      let mid := st.pending.filter fun p => p.resp.isSome || !p.effects.isEmpty || !p.weffects.isEmpty
+      let st ← if mid.isEmpty then pure st
+        else st.bad n s!"restart while the model still expects operations or a response of {mid.length} request(s)"
+      let states := st.states.map fun (o, s) => (o, Mirror.restart s)
+      return { (st.good "restart") with states := states, pending := [], epoch := e }
+  | ["req", rid, _inst, form, old, proof, note, f, r, u] =>
+    match rid.toNat?, Driver.Witness.parseForm form, old.toNat?, Driver.Witness.parseHashes proof,
+          Driver.Witness.parseNote note, Driver.Witness.parseOut f, Driver.Witness.parseOut r,
+          Driver.Witness.parseOut u, st.cfg with
+    | some rid, some form, some old, some proof, some note, some f, some r, some u, some cfg =>
+      let req : AddReq := { body := form, old := old, proof := proof, note := note }
+      let e : Env := { cfg := cfg, inst := 0, req := req, fetchOut := f, replaceOut := r, uploadOut := u }
+      let o := e.origin
+      match st.mcfg o with
+      | none => st.bad n "no configuration"
+      | some c =>
+        let s := st.stateOf o
+        let (s', resp) := Mirror.step node emptyHash leaf c s (.addCk e)
+        let weffects := s'.w.log.drop s.w.log.length
+        let text := match e.reCkpt with | some ck => formatCheckpoint ck | none => []
+        let st := st.setState o s'
+        let p : Pending := { rid := rid, origin := o, weffects := weffects, resp := some resp, text := text }
+        return (st.setP p).good s!"req:{respBranch resp}:ops{weffects.length}"
+    | _, _, _, _, _, _, _, _, _ => st.bad n s!"unparsable request: {l.take 200}"
+  | "ef" :: rid :: kind :: origin :: rest =>
+    match rid.toNat?, Bytes.ofHex origin with
+    | some rid, some o =>
+      match st.findP rid with
+      | none => st.bad n s!"store operation of a request the model knows nothing about: {l.take 160}"
+      | some p =>
+        if o != p.origin then st.bad n s!"request {rid}: {kind} touches origin {origin}, the request is for {Bytes.toHexP p.origin}"
+        else
+        match p.weffects, kind, rest with
+        | .lockFetch _ _ :: more, "fetch", [] => return (st.setP { p with weffects := more }).good "ef:fetch"
+        | .lockReplace _ new applied _ :: more, "replace", [a, noteS] =>
+          match Driver.Witness.parseNote noteS with
+          | some (.wellformed nt) =>
+            if (a == "1") != applied then st.bad n s!"request {rid}: lock write applied={a}, model says {applied}"
+            else if nt.text != new.text || Driver.Witness.describe st.ids nt.text nt.sigs != Driver.Witness.describe st.ids new.text new.sigs then
+              st.bad n s!"request {rid}: the note written to the lock store differs from the model's"
+            else return (st.setP { p with weffects := more }).good s!"ef:replace:{a}"
+          | _ => st.bad n s!"request {rid}: a malformed note was written to the lock store"
+        | .upload _ obj applied _ :: more, "upload", [a, noteS] =>
+          match Driver.Witness.parseNote noteS with
+          | some (.wellformed nt) =>
+            if (a == "1") != applied then st.bad n s!"request {rid}: upload applied={a}, model says {applied}"
+            else if nt.text != obj.text || Driver.Witness.describe st.ids nt.text nt.sigs != Driver.Witness.describe st.ids obj.text obj.sigs then
+              st.bad n s!"request {rid}: the published note differs from the model's"
+            else return (st.setP { p with weffects := more }).good s!"ef:upload:{a}"
+          | _ => st.bad n s!"request {rid}: a malformed note was published"
+        | _ :: _, _, _ => st.bad n s!"request {rid}: store operation `{kind}` is not the next one the protocol allows"
+        | [], _, _ => st.bad n s!"request {rid}: store operation `{kind}` after the model's request has no more operations"
+    | _, _ => st.bad n s!"bad-line: {l.take 160}"
+  | ["resp", rid, status, payload] =>
+    match rid.toNat? with
+    | none => st.bad n s!"bad-line: {l.take 160}"
+    | some rid =>
+      match st.findP rid with
+      | none => st.bad n s!"response to a request the model knows nothing about: {l.take 160}"
+      | some p =>
+        let st := st.dropP rid
+        if !p.weffects.isEmpty then
+          st.bad n s!"request {rid}: answered {status} although the model still expects {p.weffects.length} store operation(s)"
+        else
+        match p.resp with
+        | some (.w (.dead)) => if status == "dead" then return st.good "resp:dead" else st.bad n s!"request {rid}: status {status}, model: process dies"
+        | some (.w (.err c k)) =>
+          let want := toString c.status
+          let wantP := if c == .conflict then toString k else "-"
+          if status == want && payload == wantP then return st.good s!"resp:{want}-{reprStr c}"
+          else st.bad n s!"request {rid}: status {status} {payload}, model {want} {wantP} ({reprStr c})"
+        | some (.w (.ok sigs)) =>
+          match Driver.Witness.parseDescs payload with
+          | some ds =>
+            if status == "200" && ds == Driver.Witness.describe st.ids p.text sigs then return st.good "resp:200"
+            else st.bad n s!"request {rid}: status {status} lines {payload}, model 200 {Driver.Witness.showDescs (Driver.Witness.describe st.ids p.text sigs)}"
+          | none => st.bad n s!"request {rid}: status {status} {payload}, model 200"
+        | _ => st.bad n s!"request {rid}: an add-checkpoint response for a request that is not one"
+  | ["ae", rid, hdr, origin, start, stop, ticket, fp, fm] =>
+    match rid.toNat?, parseHdr hdr, start.toNat?, stop.toNat?, parseBool fp, parseBool fm with
+    | some rid, some hdr, some start, some stop, some fp, some fm =>
+      let o := (Bytes.ofHex origin).getD []
+      let tk : Option TicketIn :=
+        if ticket == "-" then some .none
+        else if ticket == "bad" then some .garbage
+        else if ticket.startsWith "tk" then
+          ((ticket.drop 2).toString.toNat?.bind fun id => st.tickets.find? (·.1 == id)).map fun (_, t) => TicketIn.box t
+        else none
+      match tk with
+      | none => st.bad n s!"request {rid}: ticket `{ticket}` was never delivered in a mirror-info response"
+      | some tk =>
+        if st.findP rid |>.isSome then st.bad n s!"request id {rid} reused" else
+        let q : MetaReq := { hdr := hdr, start := start, stop := stop, ticket := tk }
+        if hdr == .endLtStart || (hdr == .ok && stop < start) then
+          -- `uploadEnd < uploadStart` is a framing error of the handler
+          let p : Pending := { rid := rid, origin := o, resp := some (.err .endLtStart) }
+          return (st.setP p).good "ae:400-endLtStart:ops0"
+        else runEv st n rid o (.mdata rid q fp fm) "ae"
+    | _, _, _, _, _, _ => st.bad n s!"bad-line: {l.take 200}"
+  | "ap" :: rid :: i :: kind :: rest =>
+    match rid.toNat?, i.toNat? with
+    | some rid, some i =>
+      match st.findP rid with
+      | none => st.bad n s!"package step of a request the model does not have in flight: {l.take 120}"
+      | some p =>
+        if p.resp.isSome || !p.effects.isEmpty then
+          st.bad n s!"request {rid}: a package is read although the model still expects {p.effects.length} operation(s) / a response of the previous step"
+        else
+        let mi := match (st.stateOf p.origin).reqs rid with | some r => r.i | none => 0
+        if mi != i then st.bad n s!"request {rid}: package index {i}, the model is at package {mi}" else
+        match kind, rest with
+        | "full", [entries, proof, fc, outs] =>
+          match parseEntries entries, parseHashList proof, parseBool fc, parseFaults outs with
+          | some es, some pr, some fc, some outs => runEv st n rid p.origin (.pkg rid (.full es pr) fc true outs) "ap-full"
+          | _, _, _, _ => st.bad n s!"bad-line: {l.take 200}"
+        | "trunc", [fp] =>
+          match parseBool fp with
+          | some fp => runEv st n rid p.origin (.pkg rid .trunc true fp []) "ap-trunc"
+          | none => st.bad n s!"bad-line: {l.take 200}"
+        | "many", _ => runEv st n rid p.origin (.pkg rid .many true true []) "ap-many"
+        | _, _ => st.bad n s!"bad-line: {l.take 200}"
+    | _, _ => st.bad n s!"bad-line: {l.take 200}"
+  | ["ac", rid, fm, fp, fh, fw, ud, uh, rep, up] =>
+    match rid.toNat?, parseBool fm, parseBool fp, parseBool fh, parseBool fw, parseFault ud, parseFault uh,
+          parseFault rep, parseFault up with
+    | some rid, some fm, some fp, some fh, some fw, some ud, some uh, some rep, some up =>
+      match st.findP rid with
+      | none => st.bad n s!"commit of a request the model does not have in flight: {l.take 120}"
+      | some p =>
+        if p.resp.isSome || !p.effects.isEmpty then
+          st.bad n s!"request {rid}: commit although the model still expects {p.effects.length} operation(s) / a response of the previous step"
+        else runEv st n rid p.origin (.commit rid fm fp fh fw ud uh rep up) "ac"
+    | _, _, _, _, _, _, _, _, _ => st.bad n s!"bad-line: {l.take 200}"
+  | "aef" :: rid :: rest =>
+    match rid.toNat? with
+    | none => st.bad n s!"bad-line: {l.take 160}"
+    | some rid =>
+      match st.findP rid with
+      | none => st.bad n s!"store operation of a request the model knows nothing about: {l.take 160}"
+      | some p =>
+        match p.effects with
+        | [] => st.bad n s!"request {rid}: store operation `{" ".intercalate (rest.take 5)}` but the model expects no (more) operation in this step"
+        | exp :: more =>
+          let ok (b : String) : IO St := return (st.setP { p with effects := more }).good b
+          let no : IO St := st.bad n s!"request {rid}: store operation `{(" ".intercalate rest).take 100}` — the model expects `{showEffect exp}`"
+          match exp, rest with
+          | .pfetch, ["pfetch"] => ok "aef:pfetch"
+          | .mfetch, ["mfetch"] => ok "aef:mfetch"
+          | .putData tn tw a es, ["put", "data", sn, sw, sa, ses] =>
+            if sn.toNat? == some tn && sw.toNat? == some tw && (sa == "1") == a then
+              if parseEntries ses == some es then ok s!"aef:data:{sa}"
+              else st.bad n s!"request {rid}: entry bundle {tn}/{tw} differs: impl {ses.take 80}… model {(showEntries es).take 80}…"
+            else no
+          | .putHash tl tn tw a hs, ["put", "hash", sl, sn, sw, sa, shs] =>
+            if sl.toNat? == some tl && sn.toNat? == some tn && sw.toNat? == some tw && (sa == "1") == a then
+              if parseHashList shs == some hs then ok s!"aef:hash{tl}:{sa}"
+              else st.bad n s!"request {rid}: hash tile {tl}/{tn}/{tw} differs: impl {shs.take 80}… model {(showHashes hs).take 80}…"
+            else no
+          | .mreplace a ck, ["mreplace", sa, sn, sroot] =>
+            if (sa == "1") == a && sn.toNat? == some ck.1 && Bytes.ofHex sroot == some ck.2 then ok s!"aef:mreplace:{sa}" else no
+          | .mupload a ck, ["mupload", sa, sn, sroot] =>
+            if (sa == "1") == a && sn.toNat? == some ck.1 && Bytes.ofHex sroot == some ck.2 then ok s!"aef:mupload:{sa}" else no
+          | _, _ => no
+  | "aresp" :: rid :: status :: rest =>
+    match rid.toNat? with
+    | none => st.bad n s!"bad-line: {l.take 160}"
+    | some rid =>
+      match st.findP rid with
+      | none => st.bad n s!"response to a request the model knows nothing about: {l.take 160}"
+      | some p =>
+        let st := st.dropP rid
+        if !p.effects.isEmpty then
+          st.bad n s!"request {rid}: answered {status} although the model still expects `{showEffect (p.effects.headD .pfetch)}` (+{p.effects.length - 1})"
+        else
+        match p.resp with
+        | none => st.bad n s!"request {rid}: answered {status} {" ".intercalate rest |>.take 60}, but in the model the request continues with its next step"
+        | some r =>
+          let no : IO St := st.bad n s!"request {rid}: response {status} {(" ".intercalate rest).take 80}, model {showResp r}"
+          match r, rest with
+          | .err c, ["err", cls] =>
+            if status == toString c.status && cls == className c then return st.good s!"aresp:{status}-{cls}" else no
+          | .info s pn nx t, ["info", spn, snx, stk] =>
+            if status == toString s && spn.toNat? == some pn && snx.toNat? == some nx && stk.startsWith "tk" then
+              match (stk.drop 2).toString.toNat? with
+              | some tid => return { (st.good s!"aresp:{status}-info") with tickets := (tid, t) :: st.tickets }
+              | none => no
+            else no
+          | .ok ck, ["sigs", sn, sroot] =>
+            if status == "200" && sn.toNat? == some ck.1 && Bytes.ofHex sroot == some ck.2 then return st.good "aresp:200" else no
+          | _, _ => no
+  | [] => return st
+  | _ => st.bad n s!"bad-line: {l.take 160}"
+
 def main : IO UInt32 := do
-  IO.println "MISMATCH 0 engine mirror has no driver yet"
+  let st ← Driver.foldLines ({} : St) onLine
+  let unfinished := st.pending.filter fun p => p.resp.isSome || !p.effects.isEmpty || !p.weffects.isEmpty
+  let st ← if unfinished.isEmpty then pure st
+    else st.bad 0 s!"{unfinished.length} request(s): the model still expects operations or a response at the end of the trace"
+  IO.println st.t.summary
   return 0
 end Driver.Mirror
